@@ -148,9 +148,38 @@ def run_orders(ctx, prop):
             snapshots = []
             for b in order:
                 ops.append("addnv s s " + hx(b.serialize()))
-                cs = cs.add_block_no_validation(b)
+                try:
+                    cs = cs.add_block_no_validation(b)
+                except Exception as e:
+                    # every block of the tree was fully valid when it was built, and its parent has arrived
+                    raise kit.PropertyViolation(["C03", "C04"], {
+                        "kind": "adding a block whose parent arrived earlier raised %r: the ledger state at a block depends on "
+                                "what else is stored / on the arrival order" % e,
+                        "order": [x.serialize().hex() for x in order], "arrived": order.index(b)})
                 impl.append("ok")
                 snapshots.append((cs, chain.state_digest(cs, full=False)))
+                if prop != "C04":
+                    # a wallet / miner reads the balances at the head after every arrival (this also fills the caches)
+                    bal = cs.public_key_balances_by_hash[cs.current_chain_hash]
+                    hb = cs.block_by_hash[cs.current_chain_hash]
+                    ch, a = [hb], hb
+                    seen_ids = {x.hash(): x for x in order}
+                    while a.previous_block_hash in seen_ids:
+                        a = seen_ids[a.previous_block_hash]
+                        ch.append(a)
+                    ch.reverse()
+                    u = replay_chain(ch)
+                    want = {}
+                    for (h_, i_), (v_, pk_) in u.items():
+                        w_ = want.setdefault(pk_, [0, []])
+                        w_[0] += v_
+                        w_[1].append((h_, i_))
+                    got = {k.public_key: (v.value, sorted((r.hash, r.index) for r in v.output_references))
+                           for k, v in bal.items() if v.value != 0 or v.output_references}
+                    if got != {k: (v[0], sorted(v[1])) for k, v in want.items()}:
+                        res.violations.append({"kind": "balances reported at the head after an arrival differ from the replay of "
+                                                       "the head's chain", "order": [x.serialize().hex() for x in order],
+                                               "arrived": order.index(b) + 1})
             d = chain.state_digest(cs, full=(prop != "C04"))
             ops.append("digest s " + ("full" if prop != "C04" else "light"))
             impl.append(d)
